@@ -18,7 +18,7 @@ THEOREMS = [{'name': f'Props.C17.{n}', 'module': M} for n in [
     'C17_run', 'C17_history', 'C17_history_independent', 'C17_frame', 'C17_rejected_file_mode_untouched',
     'C17_extension', 'C17_one_file_per_group', 'C17_group_file_contents', 'C17_dirs_created_file_mode',
     'C17_dirs_created_dir_mode', 'C17_parent_dir_exists_dir_mode', 'C17_dir_union_partial', 'C17_F1_stale_group_file', 'C17_F1_union_fails',
-    'C17_group_names_with_dots_collide', 'C17_default_name_absent', 'C17_F2_empty_output_file_uses_option_name',
+    'C17_group_names_with_dots_collide', 'C17_default_name_absent', 'C17_default_name_empty',
     'C17_F3_leading_space_directory', 'C17_generated_shape']]
 RULE = ('one case = one real command-line run inside a seeded sequence of 2-5 runs over one output_file / output_dir '
         '(mappings A-D with different partition labels incl. a non-asserted triples map, N-TRIPLES/N-QUADS, partitioning '
